@@ -274,6 +274,9 @@ class ImplSession:
                     o = d.create_or_get_observer(observer_classes()[ev[1]])
                 idx = [i for i, x in enumerate(self.objs) if x is o]
                 out = idx[0] if idx else self._register(o)
+            elif tag == 9:
+                self.evaluate_rule(ev[1])
+                return []
             elif tag == 8:
                 del self.calls[:]
                 self.last_step = self.env.step((ev[1], ev[2]))
@@ -284,6 +287,28 @@ class ImplSession:
             self.exc_calls = list(self.calls)
             return [common.exn_code(e)] + ([["notified-despite-exception"]] if self.calls and tag in (0, 8) else [])
         return [0, common.norm(out)]
+
+    def evaluate_rule(self, r):
+        """calls a dispatching rule on the dispatcher and throws the selection away (rules must not change
+        the dispatcher; what they select is property C04's business)"""
+        from job_shop_lib.dispatching import rules as R
+
+        d = self.dispatcher
+        table = [
+            lambda: R.shortest_processing_time_rule(d),
+            lambda: R.first_come_first_served_rule(d),
+            lambda: R.most_work_remaining_rule(d),
+            lambda: R.most_operations_remaining_rule(d),
+            lambda: R.score_based_rule_with_tie_breaker(
+                [R.shortest_processing_time_score, R.first_come_first_served_score])(d),
+            lambda: R.score_based_rule_with_tie_breaker(
+                [R.most_operations_remaining_score, R.shortest_processing_time_score])(d),
+            lambda: R.score_based_rule(R.shortest_processing_time_score)(d),
+        ]
+        try:
+            table[r % len(table)]()
+        except (ValueError, IndexError):
+            pass           # no operation left: min()/max() of an empty list
 
     def notified(self):
         if self.env is not None:
